@@ -30,7 +30,10 @@ CHECKS = {
         "(nested_hash_dir / hash_named_root counterexamples). The harness builds stores of 2-3 cached functions with equal arguments, "
         "prefix-named and stray directories, reads the inventory independently, injects OSError(ESTALE) into clear_location through a "
         "registered backend subclass, and compares get_items, the deleted set and the size-string values with the model; a "
-        "tie-tolerant oracle judges the implementation directly.",
+        "tie-tolerant oracle judges the implementation directly. INTERRUPTION of the deletion loop at every call "
+        "(interrupted_eviction_is_lru_prefix, interruption_points: what has been removed so far is always a prefix of the LRU order) and "
+        "HISTORIES on one Memory object with changes behind the inventory (reduce_size_history_independent; the oracle reads sizes and "
+        "access times from disk before every call).",
         note="modelled not verified: os.walk/getatime/getsize (the tree is read independently by the harness and handed to the model), "
         "rmtree, the deadline now-age_limit (an input of the model), IEEE rounding of float() in memstr_to_bytes (exact inside the digit "
         "budget, verified by correspondence), negative age_limit; F47 (prefix regex takes non-entry directories for entries) known.",
@@ -66,7 +69,12 @@ CHECKS["C15"] = dict(
     text="resolve_pos/neg/ge_one/zero_rejected, one_is_sequential, cpu_count_ge_one, cpu_count_le_each_limit, "
     "nested_default_no_processes (induction on nesting depth) over the Lean model of effective_n_jobs of every backend class, "
     "get_nested_backend and loky's cpu_count; exhaustive correspondence over n_jobs in [-2c,2c], c in 1..32, backend classes, nesting "
-    "levels, thread/daemon guards, affinity masks and LOKY_MAX_CPU_COUNT.",
+    "levels, thread/daemon guards, affinity masks and LOKY_MAX_CPU_COUNT. ThreadPool life-cycle of a ThreadingBackend instance "
+    "(configure / _get_pool / terminate over histories of plain and managed calls): thread_pool_exact (every task of every call sees a "
+    "pool of exactly the call's resolved n_jobs, no pool left at the end, for histories whose with blocks contain only their own "
+    "calls), kept_pool_counterexample, foreign_call_in_managed_block_counterexample (= F55, known finding); call histories with "
+    "shrinking / growing n_jobs at top level and inside thread, loky and multiprocessing workers are measured with gates and compared "
+    "with the model.",
     note="partial: 'never more than n_jobs tasks at once' beyond the arithmetic is a property of ThreadPool/loky having exactly n "
     "workers - measured in the thorough tier, not proved. cpu-count sources partly mocked in subprocesses.",
     technique="Lean 4 proof (decision logic, induction on depth) + exhaustive decision-table correspondence",
@@ -114,8 +122,12 @@ CHECKS["C01"] = dict(
     "with the real Parallel driven deterministically through a controllable backend; F11 witness proved. M1L (all interleavings of "
     "any number of callback threads with the caller at lock-boundary granularity): mutex, dispatch_conservation, exactly_once, counters, "
     "return_correct, no_premature_exit, no_deadlock, callback_progress, no_lost_wakeup, quiet_exit, and quiescent_termination (from every "
-    "reachable state the drain schedule finishes the call within an explicit bound).",
-    note="M1 granularity: completion callbacks are atomic and delivered at hook points of the caller (configure, compute_batch_size, sleep, consumer pauses) - exactly the schedules harness/ctl.py executes on the real Parallel on one thread (event-log equality). Interleavings at lock-boundary / backend-call / unlocked-shared-access granularity with any number of concurrent callback threads are covered by PROOF on the second model M1L (lean/JoblibModel/ParallelLock.lean, theorems M1L.*; scope: one call on a fresh object, ordered modes, no timeout) and tied to the code by step-log equality of forced real-thread schedules (instrumented lock, controllable backend, descriptor-instrumented shared attributes; no line numbers). What remains exploration judged by oracles only is finer than a single attribute access (bytecode level: instr_sweep), mid-callback observations of the wait predicate, close during a callback's pull, native threading/multiprocessing runs, and at M1L granularity: timeouts, generator_unordered (call sequences with surviving callback threads of earlier calls are covered by PROOF on M1L-Seq, theorems M1LSeq.*: stale_steps_are_noops, current_call_refines_M1L, next_call_is_fresh, return_correct_seq, error_surfaces_seq; tied by step-log equality of forced multi-call schedules); termination is proved for the drain schedule (completions, then callbacks, then the caller; quiescent_termination with an explicit bound), not for arbitrary fair schedules. Modelled not verified: backend contract (each batch executed at most once, callback at most once), RLock, islice, Queue/deque, pickling to workers.",
+    "reachable state the drain schedule finishes the call within an explicit bound). Backend contract 'every compute_batch_size() >= 1': "
+    "auto_batch_size_ge_one_across_calls / auto_batch_size_ignores_call_inputs over AutoBatch.lean with reset and new-call operations, "
+    "tied to the REAL AutoBatchingMixin running on the real Parallel object across calls of managed and unmanaged objects (real_ab "
+    "scenarios) and by a managed-reuse native probe; completions delivered inside backend.submit (every subset of the submits of small "
+    "calls) are judged by the sequential-loop oracle.",
+    note="M1 granularity: completion callbacks are atomic and delivered at hook points of the caller (configure, compute_batch_size, sleep, consumer pauses) - exactly the schedules harness/ctl.py executes on the real Parallel on one thread (event-log equality). Interleavings at lock-boundary / backend-call / unlocked-shared-access granularity with any number of concurrent callback threads are covered by PROOF on the second model M1L (lean/JoblibModel/ParallelLock.lean, theorems M1L.*; scope: one call on a fresh object, ordered modes, no timeout) and tied to the code by step-log equality of forced real-thread schedules (instrumented lock, controllable backend, descriptor-instrumented shared attributes; no line numbers). What remains exploration judged by oracles only is finer than a single attribute access (bytecode level: instr_sweep), mid-callback observations of the wait predicate, close during a callback's pull, native threading/multiprocessing runs, and at M1L granularity: item-level conservation and termination for generator_unordered / timeouts - M1LU (lean/JoblibModel/ParallelLockU.lean, theorems M1LU.*) proves for all interleavings delivery in completion-registration order, once per tracker, timeout soundness and error surfacing, the rest is checked by the tie's oracles; completions delivered INSIDE backend.submit are an oracle-only scenario kind (call sequences with surviving callback threads of earlier calls are covered by PROOF on M1L-Seq, theorems M1LSeq.*: stale_steps_are_noops, current_call_refines_M1L, next_call_is_fresh, return_correct_seq, error_surfaces_seq; tied by step-log equality of forced multi-call schedules); termination is proved for the drain schedule (completions, then callbacks, then the caller; quiescent_termination with an explicit bound), not for arbitrary fair schedules. Modelled not verified: backend contract (each batch executed at most once, callback at most once), RLock, islice, Queue/deque, pickling to workers.",
     technique="Lean 4 proof (invariant over the dispatch/completion/retrieval transition system) + event-log correspondence under a deterministic scheduler",
     ref="6/C01, 13.2",
 )
@@ -134,8 +146,11 @@ CHECKS["C04"] = dict(
     "failed_start_releases_backend, next_call_after_failed_start_is_fresh, second_call_correct_after_failed_starts(+_unordered) over "
     "inductive histories of calls and failed starts, history_leaves_idle, sequential_failed_start, no_fault_is_old_model, and "
     "failed_start_counterexample / failed_start_unguarded_blocks_next_call = F52 for the older code; ~10% of the generated calls carry a "
-    "start-up fault (event-log equality); a native probe repeats them on the real backends (F54).",
-    note="M1 granularity: completion callbacks are atomic and delivered at hook points of the caller (configure, compute_batch_size, sleep, consumer pauses) - exactly the schedules harness/ctl.py executes on the real Parallel on one thread (event-log equality). Interleavings at lock-boundary / backend-call / unlocked-shared-access granularity with any number of concurrent callback threads are covered by PROOF on the second model M1L (lean/JoblibModel/ParallelLock.lean, theorems M1L.*; scope: one call on a fresh object, ordered modes, no timeout) and tied to the code by step-log equality of forced real-thread schedules (instrumented lock, controllable backend, descriptor-instrumented shared attributes; no line numbers). What remains exploration judged by oracles only is finer than a single attribute access (bytecode level: instr_sweep), mid-callback observations of the wait predicate, close during a callback's pull, native threading/multiprocessing runs, and at M1L granularity: timeouts, generator_unordered (call sequences with surviving callback threads of earlier calls are covered by PROOF on M1L-Seq, theorems M1LSeq.*: stale_steps_are_noops, current_call_refines_M1L, next_call_is_fresh, return_correct_seq, error_surfaces_seq; tied by step-log equality of forced multi-call schedules); termination is proved for the drain schedule (completions, then callbacks, then the caller; quiescent_termination with an explicit bound), not for arbitrary fair schedules. Modelled not verified: backend contract (each batch executed at most once, callback at most once), RLock, islice, Queue/deque, pickling to workers." + " Worker-side traceback capture is covered by native runs only.",
+    "start-up fault (event-log equality); a native probe repeats them on the real backends (F54). M1LU (timeouts at lock-boundary "
+    "granularity, ordered and unordered): timeout_raises, timeout_registers, timeout_stored, timeout_registered_raises_ordered / "
+    "_unordered, timeout_only_when_waited (a TimeoutError implies a wait of more than `timeout` ticks on one pending tracker), "
+    "timeout_branch_guarded, error_jobs_hold_exceptions.",
+    note="M1 granularity: completion callbacks are atomic and delivered at hook points of the caller (configure, compute_batch_size, sleep, consumer pauses) - exactly the schedules harness/ctl.py executes on the real Parallel on one thread (event-log equality). Interleavings at lock-boundary / backend-call / unlocked-shared-access granularity with any number of concurrent callback threads are covered by PROOF on the second model M1L (lean/JoblibModel/ParallelLock.lean, theorems M1L.*; scope: one call on a fresh object, ordered modes, no timeout) and tied to the code by step-log equality of forced real-thread schedules (instrumented lock, controllable backend, descriptor-instrumented shared attributes; no line numbers). What remains exploration judged by oracles only is finer than a single attribute access (bytecode level: instr_sweep), mid-callback observations of the wait predicate, close during a callback's pull, native threading/multiprocessing runs, and at M1L granularity: item-level conservation and termination for generator_unordered / timeouts - M1LU (lean/JoblibModel/ParallelLockU.lean, theorems M1LU.*) proves for all interleavings delivery in completion-registration order, once per tracker, timeout soundness and error surfacing, the rest is checked by the tie's oracles; completions delivered INSIDE backend.submit are an oracle-only scenario kind (call sequences with surviving callback threads of earlier calls are covered by PROOF on M1L-Seq, theorems M1LSeq.*: stale_steps_are_noops, current_call_refines_M1L, next_call_is_fresh, return_correct_seq, error_surfaces_seq; tied by step-log equality of forced multi-call schedules); termination is proved for the drain schedule (completions, then callbacks, then the caller; quiescent_termination with an explicit bound), not for arbitrary fair schedules. Modelled not verified: backend contract (each batch executed at most once, callback at most once), RLock, islice, Queue/deque, pickling to workers." + " Worker-side traceback capture is covered by native runs only.",
     technique="Lean 4 proof (invariants + clean-state re-establishment) + event-log correspondence under a deterministic scheduler",
     ref="6/C04, 13.2",
 )
@@ -153,14 +168,19 @@ CHECKS["C09"] = dict(
     "the user's pre_dispatch text, n_jobs and the batch size), resolve_numbers, resolve_zero_negative_witnesses; tied by exact-value "
     "correspondence on generated and malformed expressions (call-event oracle: nothing but eval_, isinstance and the operator "
     "functions runs) and end to end through Parallel on the controllable backend.",
-    note="M1 granularity: completion callbacks are atomic and delivered at hook points of the caller (configure, compute_batch_size, sleep, consumer pauses) - exactly the schedules harness/ctl.py executes on the real Parallel on one thread (event-log equality). Interleavings at lock-boundary / backend-call / unlocked-shared-access granularity with any number of concurrent callback threads are covered by PROOF on the second model M1L (lean/JoblibModel/ParallelLock.lean, theorems M1L.*; scope: one call on a fresh object, ordered modes, no timeout) and tied to the code by step-log equality of forced real-thread schedules (instrumented lock, controllable backend, descriptor-instrumented shared attributes; no line numbers). What remains exploration judged by oracles only is finer than a single attribute access (bytecode level: instr_sweep), mid-callback observations of the wait predicate, close during a callback's pull, native threading/multiprocessing runs, and at M1L granularity: timeouts, generator_unordered (call sequences with surviving callback threads of earlier calls are covered by PROOF on M1L-Seq, theorems M1LSeq.*: stale_steps_are_noops, current_call_refines_M1L, next_call_is_fresh, return_correct_seq, error_surfaces_seq; tied by step-log equality of forced multi-call schedules); termination is proved for the drain schedule (completions, then callbacks, then the caller; quiescent_termination with an explicit bound), not for arbitrary fair schedules. Modelled not verified: backend contract (each batch executed at most once, callback at most once), RLock, islice, Queue/deque, pickling to workers." + " The unrestricted look-ahead bound is false of the code (F18, known finding); F29 known.",
+    note="M1 granularity: completion callbacks are atomic and delivered at hook points of the caller (configure, compute_batch_size, sleep, consumer pauses) - exactly the schedules harness/ctl.py executes on the real Parallel on one thread (event-log equality). Interleavings at lock-boundary / backend-call / unlocked-shared-access granularity with any number of concurrent callback threads are covered by PROOF on the second model M1L (lean/JoblibModel/ParallelLock.lean, theorems M1L.*; scope: one call on a fresh object, ordered modes, no timeout) and tied to the code by step-log equality of forced real-thread schedules (instrumented lock, controllable backend, descriptor-instrumented shared attributes; no line numbers). What remains exploration judged by oracles only is finer than a single attribute access (bytecode level: instr_sweep), mid-callback observations of the wait predicate, close during a callback's pull, native threading/multiprocessing runs, and at M1L granularity: item-level conservation and termination for generator_unordered / timeouts - M1LU (lean/JoblibModel/ParallelLockU.lean, theorems M1LU.*) proves for all interleavings delivery in completion-registration order, once per tracker, timeout soundness and error surfacing, the rest is checked by the tie's oracles; completions delivered INSIDE backend.submit are an oracle-only scenario kind (call sequences with surviving callback threads of earlier calls are covered by PROOF on M1L-Seq, theorems M1LSeq.*: stale_steps_are_noops, current_call_refines_M1L, next_call_is_fresh, return_correct_seq, error_surfaces_seq; tied by step-log equality of forced multi-call schedules); termination is proved for the drain schedule (completions, then callbacks, then the caller; quiescent_termination with an explicit bound), not for arbitrary fair schedules. Modelled not verified: backend contract (each batch executed at most once, callback at most once), RLock, islice, Queue/deque, pickling to workers." + " The unrestricted look-ahead bound is false of the code (F18, known finding); F29 known.",
     technique="Lean 4 proof (size invariants of the transition system) + event-log correspondence + re-entrancy probe",
     ref="6/C09, 13.2",
 )
 CHECKS["C16"] = dict(
     text="promptness (a completed head batch is yielded without consuming any schedule entry or clock tick), "
     "ordered_yields_in_order, unordered_each_exactly_once, unordered_completion_order_partial, overlap_raises, close_stops_dispatch, "
-    "close_leaves_clean over M1 with an explicit generator state and consumer operations (next, close, drop, call-again, pause).",
+    "close_leaves_clean over M1 with an explicit generator state and consumer operations (next, close, drop, call-again, pause). M1LU "
+    "(generator_unordered and timeouts, all interleavings of callback threads with the caller, all control-job picks): "
+    "unordered_completion_order (delivered is a prefix of the registration order and out = its batches), "
+    "unordered_queue_is_registration_order, registration_once, unordered_no_batch_twice, unordered_each_exactly_once_partial, mutex, "
+    "pulls_only_by_lock_owner, no_deadlock, error_surfaces_unordered; tied by step-log equality of forced real-thread schedules "
+    "(drv_m1lu).",
     note="M1 granularity: completion callbacks are atomic and delivered at hook points of the caller (configure, compute_batch_size, sleep, consumer pauses) - exactly the schedules harness/ctl.py executes on the real Parallel on one thread (event-log equality). Finer interleavings (every bytecode of the caller as a pre-emption point via sys.monitoring, mid-callback observations of the wait predicate, close during a callback's pull, native threading/multiprocessing runs) are explored by the harness and judged by oracles only - exploration, not proof. Modelled not verified: backend contract (each batch executed at most once, callback at most once), RLock, islice, Queue/deque, pickling to workers.",
     technique="Lean 4 proof (generator state machine over M1) + event-log correspondence with consumer operations",
     ref="6/C16, 13.2",
@@ -179,8 +199,11 @@ CHECKS["C14"] = dict(
     "truncation_never_lies, trailing_bytes_ignored, load_error_or_original, read_bytes_terminates_exact, damaged_entry_recomputes, "
     "and the divergence theorems for the pre-fix _fill_buffer; every truncation length of small files and boundary-biased ones of "
     "large files, every compressor, garbage and second-stream suffixes, through joblib.load and through a damaged Memory entry, each "
-    "in a subprocess with watchdog and address-space cap.",
-    note="modelled not verified: the codecs (monotonicity law as hypothesis), the unpickler contract (strict prefix => error); "
+    "in a subprocess with watchdog and address-space cap. LEGACY formats (lean/JoblibModel/ZFileLegacy.lean: read_zfile's prefix / "
+    "int(field, 16) / zlib.decompress as a parameter): legacy_truncation_never_lies, legacy_trailing_bytes_ignored, legacy_load_class; "
+    "z-files of both header widths and the joblib/test/data samples with companions are damaged at every length. Two callers of one "
+    "damaged entry under every interleaving with <= 3 switches of the store-backend operations (oracle only).",
+    note="F59 (a shelved reference's get() raises on a damaged entry) known finding; modelled not verified: the codecs (monotonicity law as hypothesis), the unpickler contract (strict prefix => error); "
     "bz2/lzma/xz file objects are CPython's own (outcome set only, termination by watchdog).",
     technique="Lean 4 proof (termination measure + prefix lemmas) + exhaustive truncation/suffix differential runs",
     ref="6/C14",
@@ -193,7 +216,12 @@ CHECKS["C10"] = dict(
     "manager_never_crashes, heal(_for_every_history), fault_charged_to_pending_only, idle_death theorems, and the F15 hazard as a "
     "reachable state from which the manager stays blocked forever; fault-injection runs on the real loky backend (victim, signal, "
     "kill instant placed by pickling hooks) compared with the model's outcome classes and judged by an oracle (prompt "
-    "worker-termination error or correct results; next call healthy; at most one call fails per fault).",
+    "worker-termination error or correct results; next call healthy; at most one call fails per fault). FINE LAYER (the manager's WAIT "
+    "SET rebuilt only on entry to wait, the wake-up pipe as counter + closed flag, the shutdown lock, submit = spawn / start manager / "
+    "wake-up in the code's order): wait_set_covers_live_workers and death_wakes_manager_wait_set IN FULL for the repaired order (any "
+    "history incl. clean worker exits, either start order), wakeup_never_writes_to_closed_pipe, close_waits_for_the_writer, "
+    "abort_raises_only_worker_termination, full_wait_set_is_manager_step (link to the coarse model), counterexamples for "
+    "manager-first, unlocked close and the pre-F53 respawn; a fine tie of 20 calls per run and a behavioural probe of the submit order.",
     note="the _partial theorems assume no worker dies between the first and the last byte of its result message (F15, known "
     "finding, reproduced in the thorough tier only); the model cannot exhibit wall-clock latency, OS scheduling of the manager "
     "thread, bytes inside a message, EOF on the result pipe, process start-up; racy schedules are tied by membership in the model's "
@@ -207,7 +235,9 @@ CHECKS["C02"] = dict(
     "C08's injectivity, H only assumed collision-free on the keys of the history), cached_call_correct_partial (every history of "
     "calls, shelved gets, forced calls, checks, clears, evictions, fresh processes returns what the plain function returns), "
     "shared_entry_same_args_partial, and the F12-consequence / shared-function-id witnesses; histories on a real Memory with functions "
-    "that return their bound arguments are compared step by step (value, executed?, key class; md5 of the model stream == real args id).",
+    "that return their bound arguments are compared step by step (value, executed?, key class; md5 of the model stream == real args id). "
+    "effect_on_arguments_irrelevant / cached_call_correct_mutating_partial: what a function does to its arguments never changes a "
+    "returned value; key_after_call_wrong_value_counterexample for the seeded variant.",
     note="_partial = argument dicts hashed without the md5 fallback (F31 known), callables other than partial objects sharing one "
     "function id (F35 known); modelled not verified: md5, pickle of results (C03), the store as an abstract finite map (C05/C11).",
     technique="Lean 4 proof (composition of the C07 and C08 models; induction over cache histories) + history correspondence on a real Memory",
@@ -217,7 +247,10 @@ CHECKS["C06"] = dict(
     text="key_complete_partial (arguments agreeing outside the ignore list => equal keys, incl. dict/set arguments built in another "
     "order), hit_after_call, hit_after_equivalent_call_partial, check_iff_hit, hit_after_forced_call, wrapper_accepts over the "
     "MemoryCache model; F20/F30 witnesses; same history correspondence as C02 with execution counters, check_call_in_cache, ignore "
-    "lists and fresh-process steps.",
+    "lists and fresh-process steps. Functions that MUTATE their arguments (Fn.effect) and the forced-call path: "
+    "key_from_arguments_as_passed (every entry written by any path is filed under the key of the arguments as passed), "
+    "hit_after_forced_call_mutating, check_true_after_call, key_after_call_counterexample for the seeded variant; workload functions "
+    "sort / pop / append / clear their list, dict, set and bytearray arguments in place.",
     note="_partial excludes functools.partial objects (F20, F32 known) and aliased argument objects (F33 known).",
     technique="Lean 4 proof (key completeness via C08.encode_perm_invariant; induction over cache histories) + history correspondence",
     ref="6/C06",
@@ -234,7 +267,10 @@ CHECKS["C12"] = dict(
     "join, the comparison old_func_code == func_code): extract_write_roundtrip (every source text, every line number), torn_reads (a file "
     "cut at ANY length reads as: a fragment of the marker | ValueError | empty source | a strict prefix of the source), "
     "torn_same_only_for_prefix, intact_same_iff; tied by the text stream (real _write_func_code / extract_first_line on generated texts, "
-    "intact and cut at every length, hostile first lines).",
+    "intact and cut at every length, hostile first lines). WRITE FAULTS on func_code.py (lean/JoblibModel/FuncCodeFault.lean): "
+    "entries_only_beside_their_code (no func_code.py => no entry; func_code.py = source s => every entry is s's value, for every history "
+    "with faults), value_from_own_version_with_write_faults, counterexamples for a swallowed write error; session programs in 13 declared "
+    "source encodings with versions differing only in non-ASCII characters.",
     note="modelled not verified: inspect.getsource / get_func_code text extraction, UTF-8 (a byte prefix decodes to a code-point prefix or "
     "raises), int() outside ASCII fields (the model abstains), weakref table lifetime; sessions are sequential; one "
     "location string denoting two directories in one process (relative path + chdir) is not modelled; F39, F46 known findings.",
@@ -247,8 +283,14 @@ CHECKS["C05"] = dict(
     "the right value and does not raise, incl. expires_after), recovery_idempotent_partial, later_calls_correct_partial, F8/F9/F36 "
     "witnesses, over a file-system model with the store protocol as programs of FS operations; the model's operation list must equal "
     "the strace log of the real workload op for op, and REAL kills (strace inject SIGKILL at the k-th FS call, torn writes by "
-    "truncation) are followed by the same call in a fresh process.",
-    note="modelled not verified: kernel behaviour at kill -9 (completed rename durable, interrupted write leaves a prefix), directory "
+    "truncation) are followed by the same call in a fresh process. VALIDITY STAMPS (values carry the generation that computed them, "
+    "metadata the generation it was written in, callback `since g` = expires_after seen from a fixed instant): "
+    "entry_without_metadata_is_not_valid_under_a_callback, accepted_under_since_has_recent_stamp / _value (general); "
+    "stamp_not_newer_than_value_partial and expiry_recovery_partial (11 workloads x every crash point x every torn length); "
+    "counterexamples for metadata-before-output and for skipping the callback without metadata; an impure workload function and the "
+    "refresh / coldexp workloads with real kills tie them.",
+    note="the general stamp invariant over ALL workloads is not proved (the Sat derivations of dumpItem / storeMetadata carry only Inv; "
+    "statement kept in C05.lean); modelled not verified: kernel behaviour at kill -9 (completed rename durable, interrupted write leaves a prefix), directory "
     "listing order (an input), pickle; F36 (stale value after a kill inside the rmtree of a source-change clear) is a known finding.",
     technique="Lean 4 proof (invariant over every prefix of FS-operation programs) + strace op-sequence correspondence + real SIGKILL injection",
     ref="6/C05",
@@ -268,7 +310,11 @@ CHECKS["C03"] = dict(
     "/repo objects on every run), detect_after_write, detect_pickle, roundtrip (for every compress argument, target, protocol and "
     "load-time file name that dump accepts, load selects the matching codec), resolve_total, resolve_error_class, level_zero_rule, "
     "extension_implies_method; exhaustive correspondence of the compress-argument resolution (12.7k cases observing the bytes actually "
-    "written) + round trips of a recursive object universe under every available compressor and protocol, renamed before loading.",
+    "written) + round trips of a recursive object universe under every available compressor and protocol, renamed before loading. "
+    "HISTORIES of dump / load / rebind / register_compressor operations in one process (Proc, hstep): history_frame, "
+    "load_history_independent (same bytes and same environment at the end => same load reply, whatever happened before), "
+    "load_after_history, roundtrip_in_history; oracle: every load equals pickle.loads(pickle.dumps(x)) at the same instant, type "
+    "identity included.",
     note="modelled not verified: pickle/unpickle and the codecs are parameters with explicit inverse laws (tested on this interpreter); "
     "shared/recursive references are pickle's memo (tested, not proved); lz4 not installed.",
     technique="Lean 4 proof (decision ladder + decide over regenerated tables) + exhaustive resolution correspondence",
